@@ -11,5 +11,7 @@
  *   951 schedule(f)  952 next() returned f  953 stole f  954/964 switch old/new
  *   955 resumed (a = fiber that was switched away from / the fresh fiber itself)
  *   956 destroy(f)   957 created f          958 created thread fiber f */
+void t2_advance_ticks(unsigned k);   /* virtual timer ticks (each FIBER_TIME_RESOLUTION_MS) */
+void t2_poll_from_fiber(void);
 int t2_run(int nthreads, void (*main_fiber)(void), const int* sched, int nsched, int drain_max);
 #endif
